@@ -423,3 +423,282 @@ def random_unicode(rng, n=None):
 def indent_staircase(depth, body="pass", nl="\n", unit=" "):
     """depth nested `if x:` blocks, each one column deeper, then one statement and EOF (many dedents)"""
     return "".join(unit * i + "if x:" + nl for i in range(depth)) + unit * depth + body + nl
+
+
+# ------------------------------------------------------------------------------------------------
+# f-string bodies for the `fscan` correspondence (the FULL alphabet of the scanner in parser/src/string.rs).
+#
+# The Lean model (PV.C07.Model, the model C03's fstring_* theorems are about) ABSTRACTS the recursive call
+# `parse_fstring_expr(&expression, location)`: where the expression parser rejects the text, the real scanner
+# returns InvalidExpression at `location` and the model goes on.  The stream therefore only contains bodies in
+# which every expression text that reaches `parse_fstring_expr` is a valid expression.  Which texts those are
+# is computed by the twin below (written from string.rs; it only decides which bodies are SENT — a mistake in
+# it can drop or admit a body, never change a verdict); whether a text is an expression is decided by CPython
+# (`ast.parse('(' + text + ')', mode='eval')`), on an alphabet where the two parsers agree.
+
+class _ScanErr(Exception):
+    pass
+
+
+class _Twin:
+    def __init__(self, body, raw):
+        self.cs = body
+        self.i = 0
+        self.raw = raw
+        self.exprs = []
+
+    def peek(self):
+        return self.cs[self.i] if self.i < len(self.cs) else None
+
+    def next(self):
+        if self.i < len(self.cs):
+            c = self.cs[self.i]
+            self.i += 1
+            return c
+        return None
+
+    def escaped(self):
+        c = self.next()
+        if c is None:
+            raise _ScanErr()
+        if c in "01234567":
+            n = 1
+            while n < 3 and self.peek() is not None and self.peek() in "01234567":
+                self.next()
+                n += 1
+        elif c in "xuU":
+            p = 0
+            for _ in range({"x": 2, "u": 4, "U": 8}[c]):
+                d = self.next()
+                if d is None or d not in "0123456789abcdefABCDEF":
+                    raise _ScanErr()
+                p = p * 16 + int(d, 16)
+            if p > 0x10FFFF:
+                raise _ScanErr()
+        elif c == "N":
+            if self.next() != "{":
+                raise _ScanErr()
+            name = ""
+            while True:
+                d = self.next()
+                if d is None:
+                    raise _ScanErr()
+                if d == "}":
+                    break
+                name += d
+            if len(name.encode()) > 88 or name not in FSCAN_NAMES:
+                raise _ScanErr()
+
+    def formatted_value(self, nested):
+        expr, delims, selfdoc = "", [], False
+        while True:
+            ch = self.next()
+            if ch is None:
+                raise _ScanErr()
+            pk = self.peek()
+            if ch in "!=><" and pk == "=":
+                expr += ch + "="
+                self.next()
+            elif ch == "!" and not delims:
+                if not expr.strip():
+                    raise _ScanErr()
+                c = self.next()
+                if c not in ("s", "a", "r"):
+                    raise _ScanErr()
+                if self.peek() not in ("}", ":"):
+                    raise _ScanErr()
+            elif ch == "=" and not delims:
+                selfdoc = True
+            elif ch == ":" and not delims:
+                self.spec(nested)
+            elif ch in "({[" and not selfdoc:
+                expr += ch
+                delims.append(ch)
+            elif ch in ")]":
+                if not delims or delims.pop() != {")": "(", "]": "["}[ch]:
+                    raise _ScanErr()
+                expr += ch
+            elif ch == "}" and delims:
+                if delims.pop() != "{":
+                    raise _ScanErr()
+                expr += ch
+            elif ch == "}":
+                if not expr.strip():
+                    raise _ScanErr()
+                self.exprs.append(expr)
+                return
+            elif ch in "\"'" and not selfdoc:
+                expr += ch
+                triple = self.cs[self.i:self.i + 2] == ch * 2
+                if triple:
+                    self.i += 2
+                    expr += ch * 2
+                run = 0
+                while True:
+                    c = self.next()
+                    if c is None:
+                        raise _ScanErr()
+                    expr += c
+                    if c == ch:
+                        run += 1
+                        if not triple or run == 3:
+                            break
+                    else:
+                        run = 0
+            elif ch in " \t\n\x0b\x0c" and selfdoc:
+                pass
+            elif ch == "\\":
+                raise _ScanErr()
+            else:
+                if selfdoc:
+                    raise _ScanErr()
+                expr += ch
+
+    def spec(self, nested):
+        while self.peek() is not None:
+            c = self.peek()
+            if c == "{":
+                self.fstring(nested + 1)
+                continue
+            if c == "}":
+                break
+            if c == "\\" and not self.raw:
+                self.next()
+                if self.peek() not in ("{", "}"):
+                    self.escaped()
+                continue
+            self.next()
+
+    def fstring(self, nested):
+        if nested >= 2:
+            raise _ScanErr()
+        while self.peek() is not None:
+            ch = self.peek()
+            if ch == "{":
+                self.next()
+                if nested == 0:
+                    if self.peek() == "{":
+                        self.next()
+                        continue
+                    if self.peek() is None:
+                        raise _ScanErr()
+                self.formatted_value(nested)
+            elif ch == "}":
+                if nested > 0:
+                    break
+                self.next()
+                if self.peek() == "}":
+                    self.next()
+                else:
+                    raise _ScanErr()
+            elif ch == "\\" and not self.raw:
+                self.next()
+                if self.peek() not in ("{", "}"):
+                    self.escaped()
+            else:
+                self.next()
+
+
+FSCAN_NAMES = {"EN SPACE", "LATIN SMALL LETTER A", "GREEK SMALL LETTER ALPHA", "en space"}   # = lookName of Drv/C03.lean
+
+_EXPR_OK = {}
+
+
+def _expr_ok(text):
+    """is `(text)` an expression for CPython 3.11?  (on the stream's alphabet RustPython agrees)"""
+    r = _EXPR_OK.get(text)
+    if r is None:
+        import ast
+        import warnings
+        try:
+            with warnings.catch_warnings():
+                warnings.simplefilter("ignore")
+                ast.parse("(" + text + ")", mode="eval")
+            r = True
+        except (SyntaxError, ValueError, MemoryError, RecursionError):
+            r = False
+        _EXPR_OK[text] = r
+    return r
+
+
+def fscan_admissible(body, raw):
+    """every expression text the scanner hands to the expression parser (before its first own error) is valid"""
+    t = _Twin(body, raw)
+    try:
+        t.fstring(0)
+    except _ScanErr:
+        pass
+    return all(_expr_ok(e) for e in t.exprs)
+
+
+def fscan_source(body, prefix="f"):
+    """wrap a body into a one-token f-string literal that the lexer captures unchanged, or None"""
+    if "\r" in body:
+        return None
+    n = len(body) - len(body.rstrip("\\"))
+    if n % 2 == 1:
+        return None                     # the closing quote would be escaped
+    for q in ("'", '"'):
+        if q not in body and "\n" not in body:
+            return prefix + q + body + q
+    for q in ("'''", '"""'):
+        if q not in body and not body.endswith(q[0]) and not body.startswith(q[0]):
+            return prefix + q + body + q
+    return None
+
+
+FSCAN_ALPHABET = ["{", "}", ":", "!", "=", "x", "'", "(", ")", "[", "]", "\\", " ", "r", '"', "<"]
+
+FSCAN_CORPUS = [
+    "", "a", "{x}", "{x!r}", "{x!s:>{w}}", "{x=}", "{x = }", "{x=!r}", "{x=:>5}", "{{", "}}", "{{}}", "{", "}", "{x", "{x!", "{x!r",
+    "{x!z}", "{x!rr}", "{x!r }", "{x:", "{x:{", "{x:{y", "{x:{y}", "{x:{y:{z}}}", "{x:{y:{z", "{!r}", "{ }", "{}", "{:}", "{=}",
+    "{x!=y}", "{x==y}", "{x<=y}", "{x>=y}", "{x!==}", "{(x}", "{x)}", "{[x)}", "{(x]}", "{x]}", "{[x}", "{{x}", "{x}}", "{'a'}",
+    "{'a}", "{\"a}", "{'''a'''}", "{'''a''}", "{x['a']}", "{x[\"a\"]!r:{w}}", "{x\\}", "{\\}", "\\{x}", "\\}", "\\{", "{x:\\}}",
+    "{x:\\{}", "{x:\\x41}", "{x:\\x4}", "{x:\\N{EN SPACE}}", "{x:\\N{QQ}}", "\\N{EN SPACE}{x}", "\\N{QQ}", "\\N{", "\\N", "\\x4",
+    "\\u12", "\\U0011000", "\\U00110000", "\\777{x}", "é{x}é", "{é}", "{x!é}", "{x:é}", "{x:é", "{x é}", "{'é}", "{(é}", "{é)}",
+    "{x}é}", "{x=é}", "{x= é}", "{x=!é}", "{x!ré}", "😀{", "{😀", "{x:😀{y}😀}", "{x:{y:😀}}", "{x:{y:{😀}}}", "{x=", "{x= ", "{x=\t}",
+    "{x= !r}", "{x=:}", "{x=(}", "{x='a'}", "{x:{y=}}", "{x:a{y=}b}", "{x:{y}{z}}", "{x:{y!r}}", "{x:{y:>4}}", "{x:{y:{z}}", "{x,}",
+    "{x,y}", "{x:=1}", "{(x:=1)}", "{x[1:2]}", "{x[1:2]:3}", "{{x}:}", "{x:}}", "{x::}", "{x:!r}", "{x!r:!s}", "{a}{b}{c}", "{a}}{b}",
+    "{a}{{b}", "{ x }", "{\nx\n}", "{x:\n}", "{x!r\n}", "{x\n!r}", "{x.y}", "{x(1)}", "{x(1}", "{x[(1])}", "{{{x}}}", "{{{{x}}}}",
+]
+
+
+def fscan_exhaustive(maxlen, alphabet=None):
+    import itertools
+    alphabet = alphabet or FSCAN_ALPHABET
+    for n in range(0, maxlen + 1):
+        for tup in itertools.product(alphabet, repeat=n):
+            yield "".join(tup)
+
+
+_FS_EXPR = ["x", "x1", "a.b", "f(x)", "f(x, y)", "x[0]", "x['k']", 'x["k"]', "x[1:2]", "(x)", "[x, y]", "{x: y}", "{x}", "x+1",
+            "x if y else z", "x!=y", "x==y", "x<=y", "x>=y", "x<y", "(x:=1)", "'s'", '"s"', "'''t'''", "x,", "x, y", " x ", "é",
+            "f(é)", "x['é']", "(lambda: 1)", "(lambda a: a)(1)", "not x", "-x", "x**2", "x or y", "[a for a in b]", "''", "'{'", "'}'"]
+_FS_LIT = ["", "a", "ab ", "é", "😀", "{{", "}}", "\\n", "\\x41", "\\u00e9", "\\N{EN SPACE}", "\\\\", "\\'", '\\"', "\\101", "%", "#", ":", "!"]
+_FS_SPEC = ["", ">5", "{w}", ">{w}", "{w}.{p}", "é", "\\x3e5", "{w!r}", "{w:>3}", " ", "=", "!r", "{{", "a{w}b"]
+
+
+def fscan_random(rng):
+    """mostly well-formed bodies (literal text, escapes, doubled braces, fields with conversions, specs with nested
+    fields, '=' forms), then 0..2 single-character edits"""
+    out = []
+    for _ in range(rng.randrange(1, 5)):
+        out.append(rng.choice(_FS_LIT))
+        if rng.random() < .8:
+            f = "{" + rng.choice(_FS_EXPR)
+            if rng.random() < .25:
+                f += rng.choice(["=", " = ", "= "])
+            if rng.random() < .35:
+                f += "!" + rng.choice("rsa")
+            if rng.random() < .4:
+                f += ":" + rng.choice(_FS_SPEC)
+            out.append(f + "}")
+    s = "".join(out)
+    for _ in range(rng.choice([0, 0, 1, 1, 2])):
+        if not s:
+            break
+        i = rng.randrange(len(s))
+        k = rng.randrange(3)
+        c = rng.choice(FSCAN_ALPHABET + ["é", "a", "s", "\n", "'''"])
+        s = s[:i] + (c if k == 0 else "" if k == 1 else c + s[i]) + s[i + (0 if k == 0 else 1):]
+    return s
